@@ -13,6 +13,14 @@ for sd in $seeds; do
   git -C /repo checkout HEAD -- .
   nv=$(echo "$out" | grep -c "^VIOLATION property=$prop")
   wi=$(echo "$out" | grep "^VIOLATION" | grep -vc "no-failing-input-found")
+  if [ -n "$RECORD" ]; then echo "$out" | grep -E "^VIOLATION|^KNOWN-FINDING|failed obligation|undecided" | head -6 > /tmp/.seed_rec.$$; python3 - "$sd" "$rc" /tmp/.seed_rec.$$ <<'PYE'
+import json,sys
+sd,rc,f=sys.argv[1:4]; p='seeded/%s/meta.json'%sd; m=json.load(open(p))
+lines=[l.strip() for l in open(f) if l.strip()]
+m['detected_by']={'1':'DETECTED','2':'UNDECIDED (exit 2)','0':'MISSED (exit 0)'}.get(rc,'rc='+rc)+' by ./check %s quick: '%m['property']+' | '.join(lines)[:700]
+json.dump(m,open(p,'w'),indent=1)
+PYE
+  rm -f /tmp/.seed_rec.$$; fi
   case $rc in 1) echo "$sd ($prop): DETECTED ($nv violation line(s), $wi with a failing input)";; 2) echo "$sd ($prop): UNDECIDED (exit 2)";; 0) echo "$sd ($prop): MISSED (exit 0)";; *) echo "$sd ($prop): rc=$rc";; esac
 done
 git -C /repo status --porcelain
